@@ -1,6 +1,6 @@
 (* C09, follow sets: soundness and completeness combined. *)
 From Coq Require Import List Arith Bool.
-From LV Require Import Sema SetLemmas FirstSpec FirstCert FollowSpec FollowSound.
+From LV Require Import Sema SetLemmas FirstSpec FirstCert FollowSpec FollowSound FollowClosed.
 Import ListNotations.
 
 Theorem follow_exact g fi fuel fo lf :
@@ -12,4 +12,14 @@ Proof.
   intros Hw Hc Hcl y a Hy. split.
   - intros Ha. eapply follow_sound; [apply wf_ids_b_spec; exact Hw|exact Hc|exact Hy|exact Ha].
   - intros Hf. eapply follow_complete; eassumption.
+Qed.
+
+(* the closure hypothesis is itself a theorem (FollowClosed.calc_follow_closed) *)
+Theorem follow_exact_any g fi fuel fo lf :
+  wf_ids_b g = true ->
+  calc_follow g fi fuel = Some (fo, lf) ->
+  forall y a, In y (nodes_of g) -> (mem (T a) (get fo (rid_of y)) = true <-> Fol g fi y a).
+Proof.
+  intros Hw Hc. eapply follow_exact; try eassumption.
+  eapply calc_follow_closed; [apply wf_ids_b_spec; exact Hw|exact Hc].
 Qed.
